@@ -21,6 +21,10 @@
  *   use i                    make instance i the current one: every operation below acts on the current instance,
  *                            callbacks act on the instance they are invoked for
  *   beh k n a1 a2 ...        actions run by watch k's callback on its n-th (0-based) FIRE invocation
+ *   ubeh k a1 a2 ...         actions run by watch k's callback when it is given its UNBIND notification (flags exactly
+ *                            UNBIND: the watch was cancelled) from outside any running callback, i.e. by a top-level
+ *                            `cancel k`; every action but C; default hooks only.  Inside running callbacks, and at
+ *                            destruction, notifications stay passive
  *   timer k ms flags         tickit_watch_timer_after_msec
  *   timer_at k sec usec flags
  *   later k flags | io k fd cond flags | signal k signum flags | process k pid flags
@@ -33,6 +37,12 @@
  *   run                      tickit_run: iterations until a callback calls tickit_stop (action K); the harness's
  *                            ppoll stops the loop itself (`hstop`) when it would block for ever or after 50 waits
  *   destroy                  tickit_unref of the current instance
+ *   new [Cnn] tt             (default hooks only) before the instance is built a first stand-alone terminal
+ *                            (tickit_term_new_for_termtype) starts observing SIGWINCH: tickit_term_observe_sigwinch(tt0, true);
+ *                            it keeps observing until the process ends, so the observer list of term.c is never empty
+ *                            afterwards and tickit_term_observe_sigwinch never touches the SIGWINCH handler again
+ *   obs 0|1                  tickit_term_observe_sigwinch(tt1, 0|1) on a second stand-alone terminal (made on first use);
+ *                            only in a `tt` history
  *   end                      leak check
  * Actions: T,k,ms,flags  A,k,sec,usec,flags  L,k,flags  I,k,fd,cond,flags  S,k,sig,flags
  *          P,k,pid,flags  C,k  E,errno  R,sig  X,pid,status  K (tickit_stop)
@@ -97,6 +107,9 @@ static struct { uintptr_t h; int kind; int fires; int used; } W[MAXW];
 
 static struct { int k, n, nact; char *act[MAXACT]; } B[MAXBEH];
 static int nbeh;
+static struct { int k, nact; char *act[MAXACT]; } UB[MAXBEH];   /* unbind handlers */
+static int nubeh;
+static int cb_depth;         /* inside the FIRE invocation of a callback */
 
 static long long vclock_us;
 static int quiet;            /* terminal set-up at `new`: nothing is logged, the clock jumps so that waits end */
@@ -109,6 +122,8 @@ static struct { int exited, reaped, status; } PR[NPID];
 /* the self-pipe configuration (`new … fb`) */
 #define PIPE0 90
 static int fbmode;
+static int ttmode;           /* `new … tt`: stand-alone terminals that observe SIGWINCH next to the instance */
+static TickitTerm *XT[2];    /* reachable from here: not leaks */
 static TickitEventHooks fbhooks;
 static int canon_pipe;       /* inside tickit_build / a registration: the next pipe() is the library's self-pipe */
 static int npipes;           /* pipes the library has made in this process */
@@ -316,8 +331,22 @@ static int cb(Tickit *t, TickitEventFlags flags, void *info, void *user)
   else obs("? ");
   obs_flush();
   errno = saved;
+  if(flags == TICKIT_EV_UNBIND && cb_depth == 0 && k >= 0 && k < MAXW) {
+    for(int i = 0; i < nubeh; i++)
+      if(UB[i].k == k) {
+        for(int j = 0; j < UB[i].nact; j++) {
+          EV("a ");
+          int keep = errno;
+          if(UB[i].act[j][0] == 'C') continue;
+          if(!do_action(UB[i].act[j]))
+            if(UB[i].act[j][0] != 'P') errno = keep;
+        }
+        break;
+      }
+  }
   if((flags & TICKIT_EV_FIRE) && k >= 0 && k < MAXW) {
     int n = W[k].fires++;
+    cb_depth++;
     for(int i = 0; i < nbeh; i++)
       if(B[i].k == k && B[i].n == n) {
         for(int j = 0; j < B[i].nact; j++) {
@@ -329,6 +358,7 @@ static int cb(Tickit *t, TickitEventFlags flags, void *info, void *user)
         }
         break;
       }
+    cb_depth--;
   }
   return 0;
 }
@@ -370,8 +400,10 @@ static void sig_trailer(void)
 
 static void engine_begin(void)
 {
-  memset(TT, 0, sizeof TT); cur = 0; leaked = 0; nbeh = 0; ninpoll = 0; quiet = 0; in_run = 0; run_polls = 0;
+  memset(TT, 0, sizeof TT); cur = 0; leaked = 0; nbeh = 0; nubeh = 0; cb_depth = 0; ninpoll = 0; quiet = 0; in_run = 0; run_polls = 0;
   fbmode = 0; canon_pipe = 0; npipes = 0; pipe_rd = -1;
+  for(int i = 0; i < 2; i++) if(XT[i]) { tickit_term_unref(XT[i]); XT[i] = NULL; }
+  ttmode = 0;
   memset(W, 0, sizeof W);
   memset(PR, 0, sizeof PR);
   memset(ready_bits, 0, sizeof ready_bits);
@@ -422,6 +454,14 @@ static void engine_op(int argc, char **argv)
   if(strcmp(op, "new") == 0) {
     cur = 0;
     for(int i = 1; i < argc; i++) if(strcmp(argv[i], "fb") == 0) fbmode = 1;
+    for(int i = 1; i < argc; i++) if(strcmp(argv[i], "tt") == 0 && !fbmode) ttmode = 1;
+    if(ttmode) {
+      quiet = 1;
+      XT[0] = tickit_term_new_for_termtype("xterm");
+      quiet = 0;
+      if(!XT[0]) { obs("build-failed"); return; }
+      tickit_term_observe_sigwinch(XT[0], true);
+    }
     if(!build_current()) { obs("build-failed"); return; }
     obs("ok ");
     sig_trailer();
@@ -449,6 +489,7 @@ static void engine_op(int argc, char **argv)
   int okargs = 1;
   for(int i = 1; i < argc && i < 9; i++) {
     if(strcmp(op, "beh") == 0 && i >= 3) break;
+    if(strcmp(op, "ubeh") == 0 && i >= 2) break;
     char *e;
     v[i - 1] = strtol(argv[i], &e, 10);
     if(*e) okargs = 0;
@@ -459,6 +500,16 @@ static void engine_op(int argc, char **argv)
     B[nbeh].k = v[0]; B[nbeh].n = v[1]; B[nbeh].nact = argc - 3;
     for(int i = 3; i < argc; i++) B[nbeh].act[i - 3] = strdup(argv[i]);
     nbeh++;
+    obs("ok ");
+  }
+  else if(strcmp(op, "ubeh") == 0 && argc >= 2 && !fbmode && nubeh < MAXBEH && argc - 2 <= MAXACT) {
+    int have = 0;
+    for(int i = 0; i < nubeh; i++) if(UB[i].k == v[0]) have = 1;
+    if(!have) {
+      UB[nubeh].k = v[0]; UB[nubeh].nact = argc - 2;
+      for(int i = 2; i < argc; i++) UB[nubeh].act[i - 2] = strdup(argv[i]);
+      nubeh++;
+    }
     obs("ok ");
   }
   else if(strcmp(op, "timer") == 0 && argc == 4 && v[1] >= 0)   { do_register(K_TIMER, v[0], v[1], -1, v[2]); obs("ok "); }
@@ -480,6 +531,12 @@ static void engine_op(int argc, char **argv)
   else if(strcmp(op, "tickhang") == 0 && argc == 1) { tickit_tick(T, TICKIT_RUN_NOSETUP); obs("ok "); }
   else if(strcmp(op, "run") == 0 && argc == 1) { in_run = 1; run_polls = 0; tickit_run(T); in_run = 0; obs("ok "); }
   else if(strcmp(op, "destroy") == 0 && argc == 1)  { tickit_unref(T); T = NULL; obs("ok "); }
+  else if(strcmp(op, "obs") == 0 && argc == 2 && ttmode && (v[0] == 0 || v[0] == 1)) {
+    if(!XT[1]) { quiet = 1; XT[1] = tickit_term_new_for_termtype("xterm"); quiet = 0; }
+    if(!XT[1]) { obs("build-failed"); return; }
+    tickit_term_observe_sigwinch(XT[1], v[0] == 1);
+    obs("ok ");
+  }
   else { obs("bad-op"); return; }
   sig_trailer();
 }
